@@ -370,6 +370,12 @@ class C17Executor(Executor):
         return out
 
     def get_attr(self, st, base, attr, node):
+        if isinstance(base, VRef):
+            o = st.heap.get(base.ref)
+            if o is not None and o.kind == "obj" and attr not in (o.data or {}):
+                fn = self.module.functions.get(f"{o.cls}.{attr}")
+                if fn is not None and any(ast.unparse(d) in ("property", "functools.cached_property", "cached_property") for d in fn.decorator_list):
+                    return self.run_body(st, fn, {fn.args.args[0].arg: base}, None)      # @property: reading it runs the getter
         if isinstance(base, VExt) and base.sort == "MsgObj" and attr == "body":
             from contracts import C17_glue as G
             return G.msg_body(self, st, base)
@@ -382,7 +388,16 @@ class C17Executor(Executor):
                 G.log(st, "other", a, f"passed to {what} at {self.loc(node)}")
         return super().havoc_call(st, what, args, node)
 
+    def sub_executor(self, module):
+        sub = type(self)(module, self.reg, self.uni)
+        sub.refs = self.refs
+        return sub
+
     def binop(self, st, op, a, b, node, inplace=False):
+        from pyvc.values import VSetC
+        if isinstance(a, VSetC) and isinstance(b, VSetC) and op in ("BitAnd", "Sub", "BitXor", "BitOr"):
+            x, y = set(a.items), set(b.items)
+            return [(st, VSetC({"BitAnd": x & y, "Sub": x - y, "BitXor": x ^ y, "BitOr": x | y}[op]))]
         o = self._ol(st, a)
         if o is not None and op == "Add":
             items = self.concrete_items(st, b)
@@ -564,7 +579,7 @@ def install(reg):
     reg.ext_models["str.lstrip"] = lambda ex, st, args, kwargs, node: [(st, VStr(LSTRIP(args[0].t)))] if len(args) == 1 else \
         [(st, VStr(z3.String(fresh_name("lstrip"))))]
     if hint_pattern() is not None:
-        reg.module_consts[(MSG, "_HTML_HINT_RE")] = VExt("HintRe")
+        reg.module_consts[(MSG, hint_regex_name())] = VExt("HintRe")
         reg.method_models[("HintRe", "search")] = m_hint_search
 
 
@@ -861,6 +876,26 @@ def contracts(reg):
                  ("comment-is-not-stored", lambda c: frame(c, ()))],
         modifies=("self",),
     ))
+    # every other callback for a non-text construct that the real classes override (declaration, processing instruction, marked
+    # section / CDATA, character reference; comments for EPUB): it must store nothing and keep I -- whatever its body looks like
+    from contracts import C17_sites as _S
+    for (rel, cls, selfm, inv, req) in ((HTML, HCLS, html_self, html_inv, html_requires),
+                                        (EPUB, ECLS, epub_self, epub_inv, lambda c: epub_inv(c, RHO, c.st))):
+        try:
+            extra = _S.silent_overrides(loader.module(rel), cls)
+        except Exception:  # noqa
+            extra = []
+        for name, pname in extra:
+            if cls == HCLS and name == "handle_comment":
+                continue
+            out.append(FnContract(
+                target=f"{rel}::{cls}.{name}",
+                params=[("self", selfm()), (pname, P_STR)] + GHOST,
+                requires=req,
+                ensures=[("I-preserved", lambda c, inv=inv: inv(c, RHO)),
+                         ("nothing-is-stored", lambda c: frame(c, ()))],
+                modifies=("self",),
+            ))
     out.append(FnContract(
         target=f"{HTML}::{HCLS}.get_tree",
         params=[("self", html_self())] + GHOST,
@@ -882,12 +917,37 @@ LSTRIP = z3.Function("str_lstrip", S, S)
 HINT = z3.Function("html_hint_re_search_matches", S, z3.BoolSort())      # `_HTML_HINT_RE.search(x) is not None`
 
 
-def hint_pattern(repo=None):
-    """(pattern text, min width) of msg_email_extractor._HTML_HINT_RE when it is `re.compile(<literal>, ...)`, else None."""
+def hint_regex_name(repo=None):
+    """Name of the module-level compiled pattern `_looks_like_html` (or a private helper it calls) searches with -- by ROLE, not
+    by name: the only `re.compile(<str literal>)` constant the sniffer refers to."""
     try:
-        v = loader.module(MSG, repo).assigns.get("_HTML_HINT_RE")
-        if isinstance(v, ast.Call) and ast.unparse(v.func) == "re.compile" and v.args and isinstance(v.args[0], ast.Constant) \
-                and isinstance(v.args[0].value, str):
+        m = loader.module(MSG, repo)
+        seen, todo, names = set(), ["_looks_like_html"], []
+        while todo:
+            q = todo.pop()
+            fn = m.functions.get(q)
+            if fn is None or q in seen:
+                continue
+            seen.add(q)
+            for n in ast.walk(fn):
+                if isinstance(n, ast.Name) and isinstance(n.ctx, ast.Load):
+                    if n.id in m.functions:
+                        todo.append(n.id)
+                    v = m.assigns.get(n.id)
+                    if isinstance(v, ast.Call) and ast.unparse(v.func) in ("re.compile", "compile") and v.args \
+                            and isinstance(v.args[0], ast.Constant) and isinstance(v.args[0].value, str) and n.id not in names:
+                        names.append(n.id)
+        return names[0] if len(names) == 1 else None
+    except Exception:  # noqa
+        return None
+
+
+def hint_pattern(repo=None):
+    """(pattern text, min width) of the sniffer's hint pattern when it is `re.compile(<literal>, ...)`, else None."""
+    try:
+        name = hint_regex_name(repo)
+        v = loader.module(MSG, repo).assigns.get(name) if name else None
+        if v is not None:
             import re._parser as rp
             return v.args[0].value, rp.parse(v.args[0].value).getwidth()[0]
     except Exception:  # noqa
@@ -1092,7 +1152,8 @@ def policy(repo, tier):
     for m, cls, short in ((h, HCLS, "html_extractor.py"), (e, ECLS, "epub_extractor.py")):
         node = m.classes.get(cls)
         ok = node is not None and len(node.bases) == 1 and C17_sites.is_library_parser(m, node.bases[0])
-        over = sorted(n.name for n in (node.body if node else []) if isinstance(n, ast.FunctionDef) and n.name in callbacks - under)
+        fine = under | C17_sites.accepted_overrides(m, cls)
+        over = sorted(n.name for n in (node.body if node else []) if isinstance(n, ast.FunctionDef) and n.name in callbacks - fine)
         P(f"C17/{short}::{cls}/call-site#only-contracted-parser-callbacks-overridden", ok and not over, f"base ok={ok}; overrides outside the contracts: {over}")
         init = m.functions.get(f"{cls}.__init__")
         def base_init(c_):
@@ -1167,7 +1228,8 @@ ASSUMPTIONS = ["PY-STR", "PY-EXC", "PY-ALIAS: last_closed is None, the root, or 
                "TREE-FINITE", "lists of symbolic length are modelled as abstract prefix + appended tail; only append/pop/[-1]/len/truth are in the subset",
                "call-site obligations are syntactic shape checks (back end 'dataflow', UNDECIDED when the shape is not recognised)"]
 BOUNDED = ["replay/C17.py: native grammar search (about 1000 documents: visible blocks x removable elements x void / self-closing / "
-           "unclosed / mis-nested / nested-removable / comment / CDATA contents, through read_html, read_mhtml, msg._html_to_text and an "
+           "unclosed / mis-nested / nested-removable / comment / CDATA contents, documents html.parser refuses, unusual metadata values, "
+           "degenerate tables / lists / headings / links / images next to removed content, through read_html, read_mhtml, msg._html_to_text and an "
            "EPUB chapter) is a witness finder for refuted obligations only; it is bounded and never counted as proof"]
 
 REPLAY_UNKNOWN = True    # undecided / out-of-subset items are searched natively (replay) before being reported UNDECIDED
